@@ -112,7 +112,43 @@ impl Prop for C15 {
             prop::collection::vec(any::<u8>(), 0..200),
         )
             .prop_map(|(offset, encoding, rate, channels, ann, tail)| C15Case::AuHeader { offset, encoding, rate, channels, ann, tail });
-        prop_oneof![5 => raw, 4 => mutated, 1 => burst, 1 => au].boxed()
+        // tar archives whose header fields lie (valid checksums): announced sizes that are far
+        // larger or smaller than the member.  Sizes between 2^31 and 2^63 are left out on
+        // purpose: code that allocates the announced size would take the checking process down
+        // (allocation failure aborts) instead of producing a verdict.
+        let sizes = prop_oneof![
+            2 => (1u64 << 63)..=u64::MAX,
+            1 => (0u32..31).prop_map(|k| 1u64 << k),
+            1 => 0u64..100_000,
+            1 => Just(u64::MAX),
+            1 => Just(1u64 << 63),
+        ];
+        let arch = TARGETS.iter().position(|t| *t == "sigmf_archive").unwrap() as u8;
+        let forged = (any::<u8>(), any::<u8>(), sizes, any::<bool>(), prop::collection::vec((any::<u16>(), any::<u8>()), 0..3)).prop_map(move |(which, hdr, size, octal, flips)| {
+            let seeds = seed_inputs("sigmf_archive");
+            let mut d = seeds[which as usize % seeds.len()].clone();
+            let hs = crate::fuzz_entry::tar_headers(&d);
+            if !hs.is_empty() {
+                let off = hs[hdr as usize % hs.len()];
+                // further flips inside this header (name, type flag, mode, ...)
+                for (pos, val) in flips {
+                    d[off + (pos as usize * 512 >> 16)] = val;
+                }
+                d[off + 257..off + 262].copy_from_slice(b"ustar");
+                let f = &mut d[off + 124..off + 136];
+                if octal && size < (1u64 << 33) {
+                    f.copy_from_slice(format!("{:011o}\0", size).as_bytes());
+                } else {
+                    // GNU base-256: flag byte, then the number big-endian in 11 bytes
+                    f.fill(0);
+                    f[0] = 0x80;
+                    f[4..12].copy_from_slice(&size.to_be_bytes());
+                }
+                crate::fuzz_entry::tar_fix_checksums(&mut d);
+            }
+            C15Case::Bytes { target: arch, data: d }
+        });
+        prop_oneof![10 => raw, 8 => mutated, 2 => burst, 2 => au, 1 => forged].boxed()
     }
     fn cases(&self, tier: Tier) -> u64 {
         tier.pick(60_000, 600_000)
@@ -194,7 +230,7 @@ impl Prop for C15 {
         }
     }
     fn rule(&self) -> String {
-        "generated per target (au_decode, hdlc_bits, il2p_bits(+sync tags), sigmf_meta, sigmf_archive, stream_to_pdu(+tag scripts), vec_to_stream, wpcr, midpointer, float_blocks {SymbolSync, ZeroCrossing, QuadratureDemod, FirFilter, FastFM, BinarySlicer on NaN/inf/subnormal/huge values}, sample_parse): uniformly random bytes, structured bytes (runs of 0x00/0xff/0x7e), and mutations (byte overwrite, truncation) of valid seed inputs (the encoder's AU stream, testdata/aprs.au, valid SigMF metadata, valid tar archives in both member orders, with whole, truncated and empty data members; every archive is opened with repeat 1, 2 and 0); enumerated degenerate bursts and AU header field mutations; thorough adds coverage-guided libFuzzer+ASan campaigns on the same entry functions (/verif/harness/fuzz). The bytes are decoded into (parameters, content, drip schedule), fresh blocks are built, driven to quiescence under a step bound. The targets run with the log level at `trace`, so that the arguments of the library's log statements are evaluated. Oracle inside the target: no unwind out of work()/constructor/parser (an Err is fine), no 6x idle 'Again', a finite source with a drained output reaches EOF instead of stalling, and a block whose input has ended and is drained becomes retirable (either would be a busy loop under the multithreaded runner), quiescence within the step bound; under libFuzzer additionally ASan silence. Non-trivial: input longer than 12 bytes (reaches past the first header/length checks) or an enumerated degenerate case; distinct = hash of the case.".into()
+        "generated per target (au_decode, hdlc_bits, il2p_bits(+sync tags), sigmf_meta, sigmf_archive, stream_to_pdu(+tag scripts), vec_to_stream, wpcr, midpointer, float_blocks {SymbolSync, ZeroCrossing, QuadratureDemod, FirFilter, FastFM, BinarySlicer on NaN/inf/subnormal/huge values}, sample_parse): uniformly random bytes, structured bytes (runs of 0x00/0xff/0x7e), and mutations (byte overwrite, truncation) of valid seed inputs (the encoder's AU stream, testdata/aprs.au, valid SigMF metadata, valid tar archives in both member orders, with whole, truncated and empty data members; every archive is opened with repeat 1, 2 and 0, as it is and with the checksums of its tar headers recomputed; one case in 23 is an archive with a forged header - announced member size below 2^31 or at least 2^63, octal or GNU base-256, further field flips, valid checksum); enumerated degenerate bursts and AU header field mutations; thorough adds coverage-guided libFuzzer+ASan campaigns on the same entry functions (/verif/harness/fuzz). The bytes are decoded into (parameters, content, drip schedule), fresh blocks are built, driven to quiescence under a step bound. The targets run with the log level at `trace`, so that the arguments of the library's log statements are evaluated. Oracle inside the target: no unwind out of work()/constructor/parser (an Err is fine), no 6x idle 'Again', a finite source with a drained output reaches EOF instead of stalling, and a block whose input has ended and is drained becomes retirable (either would be a busy loop under the multithreaded runner), quiescence within the step bound; under libFuzzer additionally ASan silence. Non-trivial: input longer than 12 bytes (reaches past the first header/length checks) or an enumerated degenerate case; distinct = hash of the case.".into()
     }
     fn assumptions(&self) -> Vec<String> {
         vec![
